@@ -3,6 +3,7 @@
    Models: theories/Message.v (Message.Write / Read), theories/Endpoint.v (send_run: N senders sharing
    one stream; the handler table and dispatch).  Proofs: theories/MessageProofs.v, EndpointProofs.v. *)
 From QV Require Import Reader ReaderProofs Message MessageProofs Endpoint EndpointProofs.
+From Coq Require Import Permutation.
 
 (* (a) Send = Message.Write = exactly one Write call on the stream, carrying header ++ payload *)
 Theorem C10_write_once : forall m calls, valid_msg m ->
@@ -34,6 +35,29 @@ Theorem C10_concurrent_send_complete : forall sched ls w' rest tagged,
   forall i, map snd (List.filter (from_sender i) tagged) = nth i ls [].
 Proof. exact concurrent_send_complete. Qed.
 Print Assumptions C10_concurrent_send_complete.
+
+(* (b) stated on plain lists: if the byte stream is the concatenation of the whole frames of l and l is an
+   interleaving of the senders' lists, then for every fragmentation the reader returns l - every message
+   intact, exactly once (l is a permutation of all the lists together), and there is an assignment of
+   senders to positions under which the projection of l on each sender is that sender's list *)
+Theorem C10_interleave_decodes : forall ls l sched,
+  Forall (Forall valid_msg) ls -> Interleaving ls l -> pos_sched sched ->
+  (exists sched', read_all (S (List.length l)) {| s_data := List.concat (map enc_msg l); s_sched := sched |} =
+                    Some (l, EEOF, {| s_data := []; s_sched := sched' |})) /\
+  Permutation l (List.concat ls) /\
+  (exists tags, List.length tags = List.length l /\
+     forall i, map snd (List.filter (fun p => Nat.eqb (fst p) i) (combine tags l)) = nth i ls []).
+Proof. exact interleave_decodes. Qed.
+Print Assumptions C10_interleave_decodes.
+
+(* and every complete run of the sender system produces such an interleaving *)
+Theorem C10_send_run_interleaving : forall sched pending calls sent w' rest out,
+  Forall (Forall valid_msg) pending ->
+  send_run sched pending {| w_calls := calls; w_sched := [] |} sent = Some (Ok (w', rest, out)) ->
+  Forall (fun l => l = []) rest ->
+  exists more, out = rev sent ++ more /\ Interleaving pending (map snd more).
+Proof. exact send_run_interleaving. Qed.
+Print Assumptions C10_send_run_interleaving.
 
 (* (c) at every reachable state of the endpoint, for every handler: the messages its filter was
    consulted for are exactly the messages dispatched while it was in the table, in that order; and
